@@ -864,6 +864,8 @@ pub fn drive(a: &Args) {
     for ci in 0..clients {
         let hostile = ci % 3 == 2;
         let mut base = rand_str(&mut rng, hostile);
+        // dots elsewhere in the prefix are ordinary characters: only TRAILING dots are removed
+        match rng.random_range(0..6) { 0 => base.insert(0, '.'), 1 => base.insert_str(0, ".."), 2 => base.insert(base.chars().next().map(|c| c.len_utf8()).unwrap_or(0), '.'), _ => {} }
         while base.ends_with('.') {
             base.pop();
         }
@@ -1034,6 +1036,8 @@ pub fn macro_child(a: &Args) {
         shape_to_call(s).0
     } else {
         let mut base = rand_str(&mut rng, false);
+        // dots elsewhere in the prefix are ordinary characters: only TRAILING dots are removed
+        match rng.random_range(0..6) { 0 => base.insert(0, '.'), 1 => base.insert_str(0, ".."), 2 => base.insert(base.chars().next().map(|c| c.len_utf8()).unwrap_or(0), '.'), _ => {} }
         if rng.random_bool(0.2) { base.clear(); }
         let nd = rng.random_range(0..3);
         Cfg {
